@@ -11,6 +11,9 @@ Two further dimensions, monitors only (same three-way comparison, the model has 
   contention  -- a call made while other connections hold the write lock of every shard for k failed BEGIN attempts (and, optionally,
                  again before every further transaction of the call) must behave exactly as the contract says: the DjangoCache
                  methods default to retry=True, they wait.
+  integers    -- integer values on and around the machine boundaries (+-2**31, +-2**53, +-2**63 and their neighbours, 2**64, 10**30:
+                 SQLite keeps a 64-bit integer natively, anything beyond is pickled) through every method that stores, returns or
+                 copies a value; incr / decr wherever operand and result stay inside 64 bits.
 """
 import hashlib
 import json
@@ -36,7 +39,7 @@ ID = 'C19'
 TITLE = 'DjangoCache honours the Django cache backend contract'
 COQ_PROP = 'C19'
 LEVEL = 'proof'
-TRANSLATE = ['django', 'disk']     # disk: Disk.store / Disk.fetch carry every cached value (raw number, text, bytes, pickle; inline and file)
+TRANSLATE = ['django', 'disk', 'fanout', 'sql']     # disk: Disk.store / Disk.fetch carry every cached value (raw number, text, bytes, pickle; inline and file)
 TRUSTED = [
     'hand-written single-client dictionary semantics of the FanoutCache methods (bk_set, bk_add, bk_get, bk_touch, bk_pop, '
     'bk_delete, bk_contains, bk_incr, bk_clear in coq/model/Django.v): tied to /repo by the per-call correspondence of this check',
@@ -54,8 +57,11 @@ ASSUMPTIONS = [
     'the clock never runs backwards within a history',
     'size_limit is never reached, so culling removes only expired entries (unobservable)',
     'values are integers in the theorem and the correspondence; the monitors add str / bytes / float / tuple / list / dict values on both '
-    'sides of disk_min_file_size (no None, bool, NaN, lone surrogates or integers beyond 64 bits: C01 covers the alphabet of Disk); '
-    'incr / decr are only generated for keys that hold integers; versions are integers',
+    'sides of disk_min_file_size (no None, bool, NaN or lone surrogates: C01 covers the alphabet of Disk) and integers on and around '
+    '+-2**31, +-2**53, +-2**63, 2**64, 10**30 (every value is an exact Python int on return); '
+    'incr / decr are only generated for keys that hold integers, and only where the stored integer and the result lie inside the signed '
+    '64-bit range (Cache.incr adds inside an SQLite INTEGER column: arithmetic beyond it is outside the property text, as for memcached); '
+    'versions are integers',
 ]
 
 # Former finding C19-F1 (D6, fixed in core.py): incr/decr exactly at the expiry instant incremented an item no lookup
@@ -120,6 +126,11 @@ def describe(v):
         return '{' + ', '.join('%r: %s' % (k, type(x).__name__ + (' ' + describe(x) if isinstance(x, (str, bytes)) else ''))
                                for k, x in list(v.items())[:4]) + '}'
     return repr(v)[:60]
+
+
+def big_int(c):
+    """the canonical result carries an integer of magnitude 2**31 or more (directly or inside a get_many map)"""
+    return c is not None and ((c[0] == 'int' and abs(c[1]) >= 2 ** 31) or (c[0] == 'map' and any(big_int(p[1]) for p in c[1])))
 
 
 def has_val(c):
@@ -407,7 +418,8 @@ class Runner:
 
     def __init__(self, params, clock, mkdir):
         """params: SHARDS, TIMEOUT, KEY_PREFIX, VERSION; optional MIN_FILE_SIZE (OPTIONS disk_min_file_size), DATABASE_TIMEOUT,
-        CONTEND (install the tracer so that calls of the history can be made under lock contention)."""
+        CONTEND (install the tracer so that calls of the history can be made under lock contention), INTEGERS (a history of the
+        integer-boundary dimension: its disagreements carry the sig prefix integer_)."""
         self.params = params
         self.clock = clock
         clock.set(T0)
@@ -548,7 +560,8 @@ class Runner:
         dis = None
         # what kind of history the disagreement belongs to (plain ones keep the plain names)
         kind = ('contended_' if op.get('contend') else 'after_contention_' if self.contended_before
-                else 'value_' if (has_val(exp) or has_val(obs) or has_val(lmr)) else '')
+                else 'value_' if (has_val(exp) or has_val(obs) or has_val(lmr))
+                else 'integer_' if self.params.get('INTEGERS') else '')
         if op.get('contend'):
             self.contended_before = True
         if obs != exp:
@@ -966,6 +979,73 @@ def directed_values():
 
 
 # ---------------------------------------------------------------------------
+# integers on and around the machine boundaries
+
+
+I64_MIN, I64_MAX = -2 ** 63, 2 ** 63 - 1
+INT_EDGES = [2 ** 31 - 1, 2 ** 31, 2 ** 31 + 1, -2 ** 31 - 1, -2 ** 31, -2 ** 31 + 1, 2 ** 32, -2 ** 32 - 1,
+             2 ** 53 - 1, 2 ** 53, 2 ** 53 + 1, -2 ** 53, -2 ** 53 - 1,
+             2 ** 63 - 2, 2 ** 63 - 1, 2 ** 63, 2 ** 63 + 1, -2 ** 63 + 1, -2 ** 63, -2 ** 63 - 1, -2 ** 63 - 2,
+             2 ** 64 - 1, 2 ** 64, 2 ** 64 + 1, -2 ** 64, 10 ** 30, -10 ** 30]
+
+
+def arithmetic_ok(v, d):
+    """incr / decr by d on the stored value v is inside the property: an integer, operand and result inside 64 bits"""
+    return plain_int(v) and I64_MIN <= v <= I64_MAX and I64_MIN <= v + d <= I64_MAX
+
+
+def directed_integers():
+    """One history per boundary integer: the integer goes in through set, add, get_or_set (plain and callable default) and set_many,
+    comes back through get, get_many, get_or_set, pop, touch / has_key see it, incr_version / decr_version copy it, and incr / decr
+    move it wherever operand and result stay inside 64 bits; expected results come from the reference."""
+    H = []
+    for i, v in enumerate(INT_EDGES):
+        params = {'SHARDS': 1 + i % 3, 'TIMEOUT': (300, None, 7)[i % 3], 'KEY_PREFIX': ('', 'p', 'a:b')[(i // 3) % 3],
+                  'VERSION': 1 + (i // 2) % 2, 'INTEGERS': True}
+        own = params['VERSION']
+        a, b, c = dict(key='a'), dict(key='b'), dict(key='c')
+        up = dict(key='a', version=own + 1)
+        steps = [
+            (0, 'set', dict(key='a', value=v, timeout=None)), (0, 'get', a), (0, 'has_key', a), (0, 'get_many', dict(keys=['a', 'b'])),
+            (0, 'get_or_set', dict(key='a', value=1)), (0, 'add', dict(key='a', value=2)), (0, 'get', a),
+            (0, 'add', dict(key='b', value=v, timeout=5)), (0, 'get', b), (0, 'has_key', b),
+        ]
+        cur = v
+        for o, d in (('incr', None), ('decr', 2), ('decr', None), ('incr', 1), ('decr', -1), ('incr', -2)):
+            sd = signed_delta({'op': o, 'delta': d})
+            if arithmetic_ok(cur, sd):
+                steps += [(0, o, dict(key='a', delta=d)), (0, 'get', a)]
+                cur += sd
+        steps += [
+            (0, 'set', dict(key='a', value=v, timeout=None)),
+            (1, 'incr_version', a), (1, 'get', up), (1, 'get', a), (1, 'get_many', dict(keys=['b', 'a'], version=own + 1)),
+            (1, 'touch', dict(key='a', timeout=None, version=own + 1)), (1, 'decr_version', up), (1, 'get', a), (1, 'has_key', up),
+            (2, 'pop', a), (2, 'get', a), (2, 'pop', a),
+            (2, 'get_or_set', dict(key='c', value=v)), (2, 'get', c), (2, 'get_or_set', dict(key='c', value=3)),
+            (2, 'get_or_set', dict(key='a:1', value=v, timeout=5, callable=True)), (2, 'get', dict(key='a:1')),
+            (3, 'set_many', dict(items=[['a', v], ['c', -v], ['1:a', v]], timeout=None)),
+            (3, 'get_many', dict(keys=['c', 'a', '1:a', 'b'])), (3, 'touch', dict(key='a', timeout=5)), (3, 'get', a),
+            (3, 'set', dict(key='a', value=4)), (3, 'get', a),
+            (3, 'set', dict(key='a', value=v, timeout=5)), (3, 'get', a), (3, 'delete', a), (3, 'get', a),
+            (3, 'add', dict(key='a', value=v)), (3, 'get', a), (3, 'get_or_set', dict(key='a', value=-v)),
+            (5, 'get', b), (5, 'pop', b), (5, 'incr_version', dict(key='1:a', delta=2)),
+            (5, 'pop', dict(key='1:a', version=own + 2)), (5, 'pop', c), (5, 'get_many', dict(keys=['a', 'b', 'c'])),
+        ]
+        H.append(('integer', params, [mkop(o, T0 + dt, **kw) for dt, o, kw in steps]))
+    return H
+
+
+def gen_integer_op(rng, now, ref):
+    """gen_op over the boundary integers (mixed with 0..9); an incr / decr whose operand or result would leave 64 bits becomes a get"""
+    op = gen_op(rng, now, ref, values=INT_EDGES)
+    if op['op'] in ('incr', 'decr'):
+        e = ref.d.get(ref.vk(op['key'], op.get('version')))
+        if e is not None and not arithmetic_ok(e[0], signed_delta(op)):
+            op = mkop('get', now, key=op['key'], version=op.get('version'))
+    return op
+
+
+# ---------------------------------------------------------------------------
 # contention
 
 
@@ -1040,6 +1120,7 @@ class Stats:
         self.value_histories = self.value_calls = self.file_values = 0
         self.contention_histories = self.contended = self.waited = 0
         self.contended_ops = {}
+        self.integer_histories = self.integer_calls = 0
 
     def call(self, op, rec):
         self.calls += 1
@@ -1054,6 +1135,7 @@ class Stats:
         self.after += rec['after']
         self.errors += rec['impl'][0] == 'raise'
         self.value_calls += has_val(rec['impl'])
+        self.integer_calls += big_int(rec['impl'])
         if op.get('contend'):
             self.contended_ops[op['op']] = self.contended_ops.get(op['op'], 0) + 1
 
@@ -1065,6 +1147,8 @@ class Stats:
                 'histories': self.histories, 'directed_histories': self.directed, 'configs': len(self.configs),
                 'locmem_delete_stale_excluded': self.stale, 'violations_by_sig': dict(sorted(self.per_sig.items())),
                 'value_histories': self.value_histories, 'calls_returning_a_non_integer_value': self.value_calls,
+                'integer_boundary_histories': self.integer_histories,
+                'calls_returning_an_integer_of_at_least_2**31': self.integer_calls,
                 'contention_histories': self.contention_histories, 'contended_calls': self.contended,
                 'contended_calls_with_a_failed_begin': self.waited,
                 'contended_op_histogram': dict(sorted(self.contended_ops.items()))}
@@ -1164,6 +1248,7 @@ def monitor(ctx, res, nrandom, lo, hi, st=None):
             out.append((params, done, recs))
         monitor_values(ctx, res, st, clock, mkdir, max(6, nrandom // 8))
         monitor_contention(ctx, res, st, clock, mkdir, max(10, nrandom // 5))
+        monitor_integers(ctx, res, st, clock, mkdir, max(6, nrandom // 10))      # last: the generated streams before it stay what they were
     res.extra.update(st.extra())
     return out
 
@@ -1182,6 +1267,20 @@ def monitor_values(ctx, res, st, clock, mkdir, nrandom):
         run_history(res, st, params, clock, mkdir, rng=rng, length=rng.randint(14, 22),
                     gen=lambda r, now, ref: gen_op(r, now, ref, values=alphabet))
         st.value_histories += 1
+
+
+def monitor_integers(ctx, res, st, clock, mkdir, nrandom):
+    """The integer dimension: an integer on or next to a machine boundary (32 / 53 / 64 bits) that is stored comes back as exactly that
+    Python int through every method, is copied exactly by incr_version / decr_version, and every storing method accepts it."""
+    rng = ctx.rng
+    for name, params, ops in directed_integers():
+        run_history(res, st, params, clock, mkdir, ops=ops, name=name)
+        st.integer_histories += 1
+    for _ in range(nrandom):
+        params = gen_params(rng)
+        params['INTEGERS'] = True
+        run_history(res, st, params, clock, mkdir, rng=rng, length=rng.randint(14, 22), gen=gen_integer_op)
+        st.integer_histories += 1
 
 
 def monitor_contention(ctx, res, st, clock, mkdir, nrandom):
@@ -1395,6 +1494,11 @@ RULE = (
     'of m+9 characters, small containers, a float; every result of get/get_many/get_or_set/pop, also after the copy made by '
     'incr_version/decr_version, must be of the same type and have the same contents (recursively) as the value stored; incr/decr are '
     'not generated for keys holding a non-integer.  '
+    'Integer dimension (monitors only; same reference and LocMemCache; nrandom/10 generated histories of 14-22 calls + one directed history per '
+    'integer; sig prefix integer_): values 2**31-1, 2**31, 2**31+1, -2**31-1, -2**31, -2**31+1, 2**32, -2**32-1, 2**53-1, 2**53, 2**53+1, -2**53, '
+    '-2**53-1, 2**63-2, 2**63-1, 2**63, 2**63+1, -2**63+1, -2**63, -2**63-1, -2**63-2, 2**64-1, 2**64, 2**64+1, -2**64, 10**30, -10**30 through '
+    'set / add / get_or_set (plain and callable) / set_many / touch / get / get_many / has_key / pop / delete / incr_version / decr_version; '
+    'incr / decr only where the stored integer and the result lie inside the signed 64-bit range.  '
     'Contention dimension (monitors only; nrandom/5 generated histories of 8-16 calls + 32 directed ones covering every method): a call '
     'is made, with probability 0.4, while one other sqlite3 connection per shard holds that shard\'s write lock (BEGIN IMMEDIATE); '
     'the locks are released when the calling thread makes its (k+1)-th BEGIN attempt, k in {1,2,3}, and with probability 0.6 taken '
